@@ -22,6 +22,8 @@ SPEC_MODULES = {
     "C01": ["specs.c01_taskgroup"],
     "C02": ["specs.c01_taskgroup"],
     "C07": ["specs.c01_taskgroup"],
+    "C03": ["specs.c04_scope"],
+    "C05": ["specs.c04_scope"],
     "C04": ["specs.c04_scope"],
     "C06": ["specs.c04_scope"],
     "C08": ["specs.c08_checkpoints"],
